@@ -41,7 +41,8 @@ Definition gclause_eqb (a b : gclause) : bool :=
   end.
 Definition gblock_eqb (a b : gblock) : bool :=
   list_eqb expr_eqb (g_where a) (g_where b) && gclause_eqb (g_group a) (g_group b)
-  && list_eqb (fun p q => sitem_eqb (fst p) (fst q) && String.eqb (snd p) (snd q)) (g_sel a) (g_sel b).
+  && list_eqb (fun p q => sitem_eqb (fst p) (fst q) && String.eqb (snd p) (snd q)) (g_sel a) (g_sel b)
+  && Bool.eqb (g_having a) (g_having b).
 Definition stage_eqb (a b : stage) : bool :=
   match a, b with
   | SB x, SB y => block_eqb x y
@@ -77,13 +78,15 @@ Proof.
 Qed.
 Lemma gblock_eqb_eq a b : gblock_eqb a b = true -> a = b.
 Proof.
-  unfold gblock_eqb. intro H. apply andb_true_iff in H. destruct H as [H H3].
+  unfold gblock_eqb. intro H. apply andb_true_iff in H. destruct H as [H H4].
+  apply andb_true_iff in H. destruct H as [H H3].
   apply andb_true_iff in H. destruct H as [H1 H2].
   destruct a, b; simpl in *. f_equal.
   - apply (list_eqb_eq expr_eqb); auto. intros x y; apply expr_eqb_eq.
   - apply gclause_eqb_eq; assumption.
   - eapply list_eqb_eq; [|exact H3]. intros [i1 s1] [i2 s2] E; simpl in E.
     apply andb_true_iff in E. destruct E as [E1 E2]. apply sitem_eqb_eq in E1. apply String.eqb_eq in E2. congruence.
+  - apply Bool.eqb_prop. exact H4.
 Qed.
 Lemma stage_eqb_eq a b : stage_eqb a b = true -> a = b.
 Proof.
@@ -91,7 +94,7 @@ Proof.
 Qed.
 
 (** * verified normal form of stage lists: identity blocks dropped, WHERE split into conjuncts *)
-Definition norm_g (g : gblock) : gblock := mkG (flat_map conjuncts (g_where g)) (g_group g) (g_sel g).
+Definition norm_g (g : gblock) : gblock := mkG (flat_map conjuncts (g_where g)) (g_group g) (g_sel g) (g_having g).
 Fixpoint nfs (cs : list string) (ss : list stage) : list stage :=
   match ss with
   | [] => []
